@@ -381,7 +381,35 @@ pub fn f_lat(thorough: bool) -> Vec<Unit> {
             units.push(Unit::simple(p, &tag("two-rules-join")));
         }
     }
+    // P7 the lattice is read by the third body clause and written by the head (the row just read may be the row updated)
+    for ty in LAT_TYPES.iter() {
+        let mut p = Prog { rels: vec![rel("s", 2), rel("e", 2), lat("l", 2, ty.clone()), rel("t", 1)], rules: vec![], macros: vec![], n };
+        p.rules.push(rule(vec![lhead(2, vec![ev(0)], HArg::LatMk(ev(1)))], vec![atom(0, vec![v(0), v(1)])]));
+        p.rules.push(rule(vec![lhead(2, vec![ev(2)], HArg::LatStep(3, Expr::Const(1)))], vec![atom(1, vec![v(0), v(1)]), atom(1, vec![v(1), v(2)]), atom(2, vec![v(0), v(3)])]));
+        p.rules.push(rule(vec![head(3, vec![ev(0)])], vec![catom(2, vec![v(0), v(1)], vec![Cond::LatAbove(1, Expr::Const(1))])]));
+        units.push(Unit::simple(p, &format!("lat-third-clause-{}", crate::print::lat_tag(ty))));
+    }
     let _ = thorough;
+    units
+}
+
+// ------------------------------------------------------------------------------------------ F-latbound (C13 only)
+/// a lattice relation read with its lattice column bound by an earlier clause (an all-columns look-up): not a
+/// monotone use of the value, so outside C03, but C13 speaks about all programs
+pub fn f_latbound(_thorough: bool) -> Vec<Unit> {
+    let n = 2;
+    let mut units = vec![];
+    for ty in LAT_TYPES.iter() {
+        let t = crate::print::lat_tag(ty);
+        if !(t == "maxu32" || t == "setu8" || t == "dualu32") { continue; }
+        let mut p = Prog { rels: vec![rel("s", 2), rel("e", 2), lat("l", 2, ty.clone()), lat("m", 2, ty.clone()), rel("t", 1)], rules: vec![], macros: vec![], n };
+        p.rules.push(rule(vec![lhead(2, vec![ev(0)], HArg::LatMk(ev(1)))], vec![atom(0, vec![v(0), v(1)])]));
+        p.rules.push(rule(vec![lhead(3, vec![ev(0)], HArg::LatMk(ev(1)))], vec![atom(1, vec![v(0), v(1)])]));
+        p.rules.push(rule(vec![head(4, vec![ev(0)])], vec![atom(2, vec![v(0), v(1)]), atom(3, vec![v(0), v(1)])]));
+        let mut u = Unit::simple(p, &format!("lat-bound-column-{}", crate::print::lat_tag(ty)));
+        u.input_rels = vec![0, 1];
+        units.push(u);
+    }
     units
 }
 
@@ -451,6 +479,27 @@ pub fn f_agg(thorough: bool) -> Vec<Unit> {
                     agg(2, f.clone(), if is_count { None } else { Some(1) }, *src, vec![c(1), if is_count { Arg::Wild } else { v(1) }])]));
                 mk(rules, vec![A, B, *src], format!("agg-{}-{}-constant-key", fname, sname), &mut units);
             }
+        }
+        // several positive clauses in front of the aggregate / negation: two clauses that are not a plain simple join
+        // (constant argument) and three clauses, all over a relation independent of the aggregated one, which may be empty
+        for (f, fname) in &aggs {
+            if !(thorough || matches!(f, AggFn::Count | AggFn::Sum | AggFn::MinMax)) { continue; }
+            let is_count = *f == AggFn::Count;
+            let the_agg = agg(2, f.clone(), if is_count { None } else { Some(1) }, *src, vec![v(0), if is_count { Arg::Wild } else { v(1) }]);
+            let mut rules = prod.clone();
+            rules.push(rule(vec![head(C, vec![ev(0), ev(2)])], vec![atom(A, vec![v(0)]), atom(A, vec![c(1)]), the_agg.clone()]));
+            mk(rules, vec![A, B, *src], format!("agg-{}-{}-after-two-clauses", fname, sname), &mut units);
+            let mut rules = prod.clone();
+            rules.push(rule(vec![head(C, vec![ev(0), ev(2)])], vec![atom(A, vec![v(0)]), atom(A, vec![v(3)]), atom(A, vec![v(4)]), the_agg]));
+            mk(rules, vec![A, B, *src], format!("agg-{}-{}-after-three-clauses", fname, sname), &mut units);
+        }
+        {
+            let mut rules = prod.clone();
+            rules.push(rule(vec![head(NR, vec![ev(0)])], vec![atom(A, vec![v(0)]), atom(A, vec![c(1)]), BodyItem::Neg { rel: *src, args: vec![v(0), Arg::Wild] }]));
+            mk(rules, vec![A, B, *src], format!("neg-{}-after-two-clauses", sname), &mut units);
+            let mut rules = prod.clone();
+            rules.push(rule(vec![head(NR, vec![ev(0)])], vec![atom(A, vec![v(0)]), atom(A, vec![v(3)]), atom(A, vec![v(4)]), BodyItem::Neg { rel: *src, args: vec![v(3), Arg::Wild] }]));
+            mk(rules, vec![A, B, *src], format!("neg-{}-after-three-clauses", sname), &mut units);
         }
         // negation: bound key, both columns bound, constant, wildcard only
         for (k, args) in [vec![v(0), Arg::Wild], vec![v(0), v(0)], vec![v(0), c(0)], vec![Arg::Wild, v(0)]].into_iter().enumerate() {
@@ -523,10 +572,11 @@ pub fn f_ds(thorough: bool) -> Vec<Unit> {
                 for inside in [false, true] {
                     if feeder == "at-once" && inside { continue; }
                     // relation table
-                    let mut rels = vec![rel("step", 1), rel("sched", 3 + k), RelDecl { name: "r".into(), arity: 2 + k, lat: None, ds: Some(ds.clone()) }, rel("dom", 1)];
-                    const STEP: usize = 0; const SCHED: usize = 1; const R: usize = 2; const DOM: usize = 3;
+                    let mut rels = vec![rel("step", 1), rel("sched", 3 + k), RelDecl { name: "r".into(), arity: 2 + k, lat: None, ds: Some(ds.clone()) }, rel("dom", 1), rel("pair", 2)];
+                    const STEP: usize = 0; const SCHED: usize = 1; const R: usize = 2; const DOM: usize = 3; const PAIR: usize = 4;
                     let mut rules = vec![];
                     for d in 0..n { rules.push(fact(DOM, vec![d])); }
+                    for d in 0..n { for e in 0..n { rules.push(fact(PAIR, vec![d, e])); } }
                     // variables: 0 = i (time), 1 = key, 2 = a, 3 = b
                     let kv: Vec<Arg> = if ternary { vec![v(1)] } else { vec![] };
                     let ke: Vec<Expr> = if ternary { vec![ev(1)] } else { vec![] };
@@ -578,6 +628,15 @@ pub fn f_ds(thorough: bool) -> Vec<Unit> {
                         body.push(atom(DOM, vec![v(10 + cols as Var - 1)]));
                         readers.push(("first-of-join".into(), body, (0..cols).map(|cidx| ev(10 + cidx as Var)).collect()));
                     }
+                    // joined on both element columns with a relation holding all pairs (either clause order): a simple join
+                    // whose key is the pair; the smaller side is iterated through its index on the join columns
+                    {
+                        let ra: Vec<Arg> = (0..cols).map(|cidx| v(10 + cidx as Var)).collect();
+                        let pa = vec![v(10 + k as Var), v(11 + k as Var)];
+                        let h: Vec<Expr> = (0..cols).map(|cidx| ev(10 + cidx as Var)).collect();
+                        readers.push(("first-of-pair-join".into(), vec![atom(R, ra.clone()), atom(PAIR, pa.clone())], h.clone()));
+                        readers.push(("second-of-pair-join".into(), vec![atom(PAIR, pa), atom(R, ra)], h));
+                    }
                     // constants and a repeated variable
                     if !deep {
                         let mut a1: Vec<Arg> = (0..cols).map(|cidx| v(10 + cidx as Var)).collect(); a1[k] = c(0);
@@ -608,7 +667,7 @@ pub fn f_ds(thorough: bool) -> Vec<Unit> {
                         let mut names = vec![];
                         for (name, body, h) in &group {
                             let oi = rels2.len();
-                            rels2.push(rel(&format!("o{}", oi - 4), cols));
+                            rels2.push(rel(&format!("o{}", oi - 5), cols));
                             rules2.push(rule(vec![head(oi, h.clone())], body.clone()));
                             if inside {
                                 // back edge: the reader's output feeds the clock stratum (never fires)
@@ -908,7 +967,7 @@ pub fn f_macro(thorough: bool) -> Vec<Unit> {
 }
 
 // ------------------------------------------------------------------------------------------ F-pack
-fn has_consts(p: &Prog) -> bool { let txt = crate::print::Printer::new(p).program_text(); txt.contains("% ") || txt.contains("(0") || txt.contains(" 0)") || txt.contains("(1") || txt.contains(" 1)") || txt.contains("vfn::") || txt.contains(" as i32") || txt.contains("agg ") }
+fn has_consts(p: &Prog) -> bool { let txt = crate::print::Printer::new(p).program_text(); txt.contains("% ") || txt.contains("(0") || txt.contains(" 0)") || txt.contains("(1") || txt.contains(" 1)") || txt.contains("vfn::") || txt.contains(" as i32") || txt.contains("agg ") || txt.contains("for ") || txt.contains("let ") }
 
 /// packaging variants of a core set of programs
 pub fn f_pack(thorough: bool) -> Vec<Unit> {
@@ -1036,6 +1095,7 @@ pub fn units(family: &str, thorough: bool) -> Vec<Unit> {
         "macro" => f_macro(thorough),
         "pack" | "packseg" => f_pack(thorough),
         "perm" => f_perm(thorough),
+        "latbound" => f_latbound(thorough),
         _ => panic!("unknown family {}", family),
     }
 }
